@@ -205,6 +205,11 @@ type World struct {
 	// scaling device that lets a workload with a handful of objects exercise the paths a client
 	// takes with more objects than its page limit.
 	PageCap int
+	// RequireRV: an Update (PUT) of a custom resource - a kind of a group that is not built into
+	// the API server - must carry metadata.resourceVersion, as the API server demands for custom
+	// resources (their strategy does not allow unconditional updates). Off by default: most checks
+	// were written against the permissive behaviour; a check opts in where it matters.
+	RequireRV bool
 }
 
 // NewWorld creates an empty cluster. The PRNG only drives generateName suffixes.
@@ -630,7 +635,7 @@ func (w *World) Clone() *World {
 	defer w.mu.Unlock()
 	n := NewWorld(w.Scheme, w.rng.Uint64())
 	n.rv, n.uidN, n.clock = w.rv, w.uidN, w.clock
-	n.KeepBodies, n.PageCap = w.KeepBodies, w.PageCap
+	n.KeepBodies, n.PageCap, n.RequireRV = w.KeepBodies, w.PageCap, w.RequireRV
 	for k, o := range w.objs {
 		n.objs[k] = runtime.DeepCopyJSON(o)
 	}
